@@ -428,7 +428,7 @@ func Run(o *corr.Out) {
 	sel := os.Getenv("VERIF_E2E")
 	if sel == "" {
 		sel = map[string]string{"C01": "delivery", "C02": "delivery,probe", "C04": "cancel", "C05": "fault", "C06": "probe",
-			"C07": "delivery,cancel,fault", "C12": "close,fault"}[os.Getenv("VERIF_PROP")]
+			"C07": "delivery,cancel,fault,serve", "C12": "close,fault"}[os.Getenv("VERIF_PROP")]
 	}
 	want := func(f string) bool { return sel == "" || strings.Contains(","+sel+",", ","+f+",") }
 	mul := 1
@@ -452,6 +452,8 @@ func Run(o *corr.Out) {
 		famClose(o, 6*mul)
 		famServe(o)
 		famServeHostile(o)
+	}
+	if want("close") || want("serve") {
 		famServeModel(o, 30*mul)
 	}
 }
